@@ -1,9 +1,45 @@
-"""C15 — main module (parts: c15_*.py are merged automatically)."""
+"""C15 — concurrent use from several threads is race-free and gives sequential results."""
+import os, re
+import vlib, gen_globals
+from genlib import *
 LEVEL = "proof"
-LEAN_MODULES = []
-THEOREMS = []
-TRUSTED = []
-ASSUMPTIONS = []
-LEVEL_TEXT = 'Lean theorem: interleaving-irrelevance for operations with disjoint write footprints (induction over interleavings); the footprint obligations are discharged from a regenerated scan of every static-storage object and every store to it in the compiled library; TSan build runs seeded multi-threaded op lists compared with sequential model answers.'
-LEVEL_NOTE = 'Real schedules beyond the sampled TSan runs; indirect writes approximated by the escape scan.'
-PLACEHOLDER = True
+LEAN_MODULES = ["MpirProofs.Props.C15"]
+THEOREMS = ["Mpir.Threads.interleaving_irrelevant", "Mpir.Gen.no_undocumented_shared_state"]
+GEN = [gen_globals.gen_globals]
+TRUSTED = ["tools/gen_globals.py: nm + objdump relocation scan of libmpir.a built from the working tree (direct stores through PC-relative relocations; indirect writes through escaped pointers are only reported as address-taken counts)",
+           "ThreadSanitizer (gcc -fsanitize=thread) on sampled schedules"]
+ASSUMPTIONS = ["the footprint model: a reentrant operation writes only its own destination objects and temporaries; discharged by the regenerated global-store scan, not by a proof about the C",
+               "real schedules are covered by the static absence of shared writes plus sampled TSan runs"]
+RULE = ("threads N seed nops: N in 2..8 threads each run a seeded list of 40 kinds of public operations (mpz/mpq/mpf arithmetic, division, gcd, powm, radix conversion, gmp_snprintf/gmp_sscanf to private "
+        "buffers, private random states, primality helpers) on private destinations reading shared sources of 200 bits to 2600 limbs (stack and heap temporaries); per-thread digests are compared with a "
+        "sequential run of the same lists; the same ops run on a -fsanitize=thread build; distinct = distinct (N, seed, nops)")
+LEVEL_TEXT = ("Lean theorem: in the footprint model every interleaving of the threads' operation lists leaves each thread with exactly the result of running its own list alone (induction over the schedule); "
+              "the footprint obligation is discharged from a scan, regenerated on every run, of every static-storage object of the library built from the working tree and of every instruction that stores to it: "
+              "the stored-to objects must be exactly the documented shared state (kernel-checked by decide). Seeded multi-threaded op lists run on a plain and on a ThreadSanitizer build and are compared with their sequential results.")
+LEVEL_NOTE = "Real schedules beyond the sampled TSan runs are covered only through the static scan; indirect writes through escaped pointers are approximated (address-taken counts are recorded, not proved harmless)."
+
+def gen_ops(rng, tier, ctx=None):
+    n = 6 if tier == "quick" else 40
+    for i in range(n):
+        yield "threads %x %x %x" % (rng.choice([2, 3, 4, 8]), rng.randrange(1, 1 << 30), rng.choice([200, 600, 1500]))
+
+def nontrivial(line): return line
+
+def extra(ctx, cov):
+    build = vlib.get_build("tsan"); exe = vlib.get_harness(build, "tsan")
+    import random
+    rng = random.Random("C15-tsan-%d" % ctx.seed)
+    lines = ["threads %x %x %x" % (rng.choice([2, 4, 8]), rng.randrange(1, 1 << 30), rng.choice([150, 400])) for _ in range(4 if ctx.tier == "quick" else 30)]
+    env = {"TSAN_OPTIONS": "halt_on_error=1:exitcode=66:report_signal_unsafe=0"}
+    rc, out, err = vlib.run_stream(exe, lines, env=env, timeout=3000)
+    cov["tsan_runs"] = len(lines); cov["tsan_exit"] = rc
+    if rc == 0 and out == ["0"] * len(lines): return []
+    k = len(out) if rc != 0 else next(i for i, o in enumerate(out) if o != "0")
+    path = os.path.join(vlib.VERIF, "replay", "C15-tsan-%d.ops" % ctx.seed)
+    os.makedirs(os.path.dirname(path), exist_ok=True)
+    with open(path, "w") as f:
+        f.write("# ThreadSanitizer build: harness rc=%d; answers %s\n" % (rc, out))
+        f.write("".join("# " + l + "\n" for l in err.split("\n")[:120]))
+        f.write(lines[min(k, len(lines) - 1)] + "\n")
+    m = re.search(r"WARNING: ThreadSanitizer: ([^\n]*)", err)
+    return [("tsan: %s at %s" % (m.group(1) if m else "thread result differs", lines[min(k, len(lines) - 1)]), path)]
